@@ -1,2 +1,139 @@
-(* C01 - proofs. *)
-From TT Require Import Lib.Base Gen.Handlers Model.Run Spec.Run Spec.C01 Corr.C01.
+(* C01 - proofs: the run is bracketed, has exactly one outcome, and the first exception outside
+   Exception is reported as the error and propagates. *)
+From TT Require Import Lib.Base Gen.Handlers Model.Run Spec.Run Spec.C01 Corr.C01 Proof.RunCore.
+
+(* ---------- decidable equalities ---------- *)
+
+Lemma ev_eqb_spec a b : ev_eqb a b = true <-> a = b.
+Proof.
+  destruct a, b; simpl; split; intro H; try reflexivity; try discriminate.
+  - apply outcome_eqb_spec in H; congruence.
+  - injection H as ->. apply outcome_eqb_spec; reflexivity.
+Qed.
+Lemma rk_eqb_spec a b : rk_eqb a b = true <-> a = b.
+Proof. destruct a, b; simpl; split; intro H; try reflexivity; discriminate. Qed.
+
+Lemma obs_eqb_spec a b : obs_eqb a b = true <-> a = b.
+Proof.
+  destruct a as [e1 r1], b as [e2 r2]; unfold obs_eqb; simpl. rewrite andb_true_iff.
+  rewrite (list_eqb_spec ev_eqb ev_eqb_spec), rk_eqb_spec. split; [intros [-> ->]; reflexivity | intros H; injection H; auto].
+Qed.
+
+(* with handlers inserted only for Exception-derived classes, a handler claims exactly the
+   exceptions that derive from Exception *)
+Lemma claims_iff p e :
+  forallb (fun co => subclass (fst co) CException) (p_handlers p) = true ->
+  claims (handlers p) e = isinstance e CException.
+Proof.
+  intros W. unfold claims, handlers. apply eq_true_iff_eq. rewrite existsb_exists. split.
+  - intros (h & Hin & Hh). apply in_app_or in Hin. destruct Hin as [Hin|Hin].
+    + apply in_map_iff in Hin. destruct Hin as (co & <- & Hco).
+      rewrite forallb_forall in W. specialize (W co Hco). eapply subclass_trans; [exact Hh | exact W].
+    + pose proof table_within_Exception as T. rewrite forallb_forall in T. eapply subclass_trans; [exact Hh | exact (T h Hin)].
+  - intros H. destruct catch_all_in as (h & Hin & Hc). exists h. split; [apply in_or_app; right; exact Hin|].
+    rewrite Hc. exact H.
+Qed.
+
+(* ---------- the delivered events ---------- *)
+Lemma events_of_calls f t : events_of f t = events_of f (calls t).
+Proof.
+  induction t as [|e r IH]; simpl; [reflexivity|]. destruct e; simpl; rewrite ?IH; reflexivity.
+Qed.
+
+(* ---------- the theorems ---------- *)
+Theorem model_meets_spec i : wf i = true -> spec_okb i (model i) = true.
+Proof.
+  intros W. unfold wf in W. apply andb_true_iff in W as [_ Wh].
+  unfold model, spec_okb. destruct (run_bracket (i_prog i) []) as (s & o & d & R & V & C & _ & _).
+  rewrite R. cbn [o_events o_raised]. rewrite events_of_calls, C.
+  assert (B : bracket (i_flavour i) (events_of (i_flavour i) [TStart; TOut o d; TStop])
+              = Some (deliver (i_flavour i) o)).
+  { unfold events_of, bracket. simpl. destruct (has_stop (i_flavour i)); reflexivity. }
+  rewrite B.
+  assert (Eq : forall e, negb (claims (handlers (i_prog i)) e) = negb (derives_from_Exception e)).
+  { intros e. unfold derives_from_Exception. now rewrite (claims_iff _ e Wh). }
+  rewrite <- (find_ext' _ _ (raised (i_prog i)) Eq). clear Eq.
+  unfold verdict in *. destruct (skipped (i_prog i)) eqn:Sk.
+  - (* skip-decorated: nothing is raised *)
+    assert (raised (i_prog i) = []) as ->.
+    { unfold raised, forced_failure, raised_by_user. rewrite Sk. reflexivity. }
+    reflexivity.
+  - rewrite <- collected_run_raised. unfold collected_run. rewrite Sk.
+    destruct (find _ (collected (i_prog i) false)) as [e|] eqn:F.
+    + rewrite (decide_unclaimed _ _ _ F) in *. cbn [fst snd] in *. rewrite table_last_resort in V.
+      injection V as <-. rewrite (proj2 (outcome_eqb_spec _ _) eq_refl), (proj2 (rk_eqb_spec _ _) eq_refl). reflexivity.
+    + destruct (collected (i_prog i) false) as [|x r] eqn:EX.
+      * reflexivity.
+      * destruct (decide_claimed (handlers (i_prog i)) (x :: r)) as (h & _ & D); [discriminate | exact F|].
+        rewrite D. reflexivity.
+Qed.
+
+Lemma bracket_some f evs out :
+  bracket f evs = Some out -> evs = if has_stop f then [Start; Out out; Stop] else [Start; Out out].
+Proof.
+  unfold bracket. destruct evs as [|[| |] [|[|o|] [|[| |] [|]]]]; try discriminate;
+    destruct (has_stop f); try discriminate; intros H; injection H as ->; reflexivity.
+Qed.
+
+Theorem spec_okb_sound i o : spec_okb i o = true -> Spec i o.
+Proof.
+  unfold spec_okb, Spec. destruct (bracket (i_flavour i) (o_events o)) as [out|] eqn:B; [|discriminate].
+  intros H. exists out. split; [exact (bracket_some _ _ _ B)|].
+  destruct (find _ (raised (i_prog i))) as [e|] eqn:F.
+  - apply andb_true_iff in H as [H1 H2]. apply outcome_eqb_spec in H1. apply rk_eqb_spec in H2. split.
+    + intros All. apply find_some in F. destruct F as [Fin Fb]. rewrite (All e Fin) in Fb. discriminate.
+    + intros e' He'. injection He' as <-. split; assumption.
+  - apply rk_eqb_spec in H. split; [intros _; exact H | intros e' He'; discriminate].
+Qed.
+
+(* C01_base_reported: an exception outside Exception raised anywhere is reported as the error,
+   every stage and cleanup still runs (the log is the full expected one), and the first such
+   exception comes out of run() *)
+Theorem base_reported p a0 e :
+  forallb (fun co => subclass (fst co) CException) (p_handlers p) = true ->
+  find (fun e => negb (derives_from_Exception e)) (raised p) = Some e ->
+  exists s d, run p a0 = (s, Some e, false)
+              /\ calls (tr s) = [TStart; TOut OErr d; TStop]
+              /\ map shape (log s) = expected_log p
+              /\ stack s = [].
+Proof.
+  intros Wh F. destruct (run_bracket p a0) as (s & o & d & R & V & C & L & K).
+  assert (Eq : forall e, negb (derives_from_Exception e) = negb (claims (handlers p) e)).
+  { intros x. unfold derives_from_Exception. now rewrite (claims_iff _ x Wh). }
+  rewrite (find_ext' _ _ (raised p) Eq) in F. rewrite <- collected_run_raised in F.
+  unfold verdict, collected_run in *. destruct (skipped p); [discriminate|].
+  rewrite (decide_unclaimed _ _ _ F) in *. cbn [fst snd] in *. rewrite table_last_resort in V. injection V as <-.
+  exists s, d. repeat split; assumption.
+Qed.
+
+(* C01_stop_before_raise: whatever propagates, stopTest has been delivered and is the last call *)
+Theorem stop_delivered p a0 :
+  let '(s, propagated, oof) := run p a0 in
+  oof = false /\ last (calls (tr s)) TStart = TStop
+  /\ length (filter (fun e => match e with TOut _ _ => true | _ => false end) (tr s)) = 1.
+Proof.
+  destruct (run_bracket p a0) as (s & o & d & R & V & C & L & K). rewrite R.
+  split; [reflexivity|]. split; [rewrite C; reflexivity|].
+  assert (H : forall t, filter (fun e => match e with TOut _ _ => true | _ => false end) t
+                        = filter (fun e => match e with TOut _ _ => true | _ => false end) (calls t)).
+  { induction t as [|x r IH]; simpl; [reflexivity|]. destruct x; simpl; rewrite IH; reflexivity. }
+  rewrite H, C. reflexivity.
+Qed.
+
+(* without such an exception run() returns *)
+Theorem returns_otherwise p a0 :
+  forallb (fun co => subclass (fst co) CException) (p_handlers p) = true ->
+  (forall e, In e (raised p) -> derives_from_Exception e = true) ->
+  exists s, run p a0 = (s, None, false).
+Proof.
+  intros Wh All. destruct (run_bracket p a0) as (s & o & d & R & V & C & L & K).
+  exists s. rewrite R. f_equal. f_equal.
+  unfold verdict. destruct (skipped p) eqn:Sk; [reflexivity|].
+  assert (F : find (fun e => negb (claims (handlers p) e)) (collected p false) = None).
+  { destruct (find _ _) as [e|] eqn:F; [|reflexivity]. apply find_some in F. destruct F as [Fin Fb].
+    rewrite (claims_iff _ e Wh) in Fb. pose proof (collected_run_raised p) as CR. unfold collected_run in CR.
+    rewrite Sk in CR. rewrite CR in Fin. unfold derives_from_Exception in All. rewrite (All e Fin) in Fb. discriminate. }
+  destruct (collected p false) as [|x r] eqn:EX; [reflexivity|].
+  destruct (decide_claimed (handlers p) (x :: r)) as (h & _ & D); [discriminate | exact F|].
+  rewrite D. reflexivity.
+Qed.
